@@ -86,6 +86,7 @@ impl<'a> Shrinker<'a> {
                         }
                     }),
                     Box::new(|i: &mut Inv| i.shim_seed = 1),
+                    Box::new(|i: &mut Inv| i.env.clear()),
                 ];
                 for s in simplifications {
                     let mut c = cur.clone();
